@@ -943,6 +943,79 @@ fn structural_edits(pkg: &Value) -> Vec<(String, Value)> {
     out
 }
 
+/// Field-boundary shifts on a serialized package: digits (characters) migrate from the end of one numeric (string)
+/// literal to the front of another one, or from the front of one to the end of another, so that the concatenation of
+/// the two values is unchanged while both values change. A digest computed over undelimited field values cannot tell
+/// the two packages apart. `all_pairs`: every ordered pair of numeric literals (small packages); otherwise only
+/// literals that follow each other in the text.
+pub fn boundary_shifts(text: &str, all_pairs: bool) -> Vec<(String, String)> {
+    let b = text.as_bytes();
+    let (mut nums, mut strs): (Vec<(usize, usize)>, Vec<(usize, usize)>) = (vec![], vec![]);
+    let mut i = 0;
+    while i < b.len() {
+        if b[i] == b'"' {
+            let st = i + 1;
+            i += 1;
+            while i < b.len() && b[i] != b'"' {
+                i += if b[i] == b'\\' { 2 } else { 1 };
+            }
+            strs.push((st, i.min(b.len())));
+            i += 1;
+        } else if b[i].is_ascii_digit() {
+            let st = i;
+            while i < b.len() && b[i].is_ascii_digit() {
+                i += 1;
+            }
+            nums.push((st, i));
+        } else {
+            i += 1;
+        }
+    }
+    // string literals used as keys are followed by ':' - only values take part
+    let strs: Vec<(usize, usize)> = strs.into_iter().filter(|&(_, e)| b.get(e + 1) != Some(&b':') && text.is_char_boundary(e)).collect();
+    let mut out = vec![];
+    let mut shift = |kind: &str, x: (usize, usize), y: (usize, usize), out: &mut Vec<(String, String)>| {
+        // x and y are disjoint spans; k characters leave the end of x for the front of y, or the front of y for the end of x
+        let (xs, ys) = (&text[x.0..x.1], &text[y.0..y.1]);
+        let mut build = |nx: String, ny: String, what: String| {
+            let (first, second, nf, ns) = if x.0 < y.0 { (x, y, &nx, &ny) } else { (y, x, &ny, &nx) };
+            let t = format!("{}{}{}{}{}", &text[..first.0], nf, &text[first.1..second.0], ns, &text[second.1..]);
+            out.push((what, t));
+        };
+        if !xs.is_ascii() || !ys.is_ascii() {
+            return;
+        }
+        for k in 1..xs.len().min(4) {
+            build(xs[..xs.len() - k].to_string(), format!("{}{}", &xs[xs.len() - k..], ys), format!("boundary shift: the last {k} character(s) of the {kind} literal at {} moved to the front of the one at {}", x.0, y.0));
+        }
+        for k in 1..=ys.len().min(4) {
+            if k == ys.len() && kind == "numeric" {
+                // the second number would vanish: it becomes 0 instead
+                build(format!("{xs}{ys}"), "0".to_string(), format!("boundary shift: the {kind} literal at {} appended to the one at {} and replaced by 0", y.0, x.0));
+                continue;
+            }
+            if k == ys.len() {
+                continue;
+            }
+            build(format!("{}{}", xs, &ys[..k]), ys[k..].to_string(), format!("boundary shift: the first {k} character(s) of the {kind} literal at {} moved to the end of the one at {}", y.0, x.0));
+        }
+    };
+    for (kind, spans) in [("numeric", &nums), ("string", &strs)] {
+        for a in 0..spans.len() {
+            if all_pairs && kind == "numeric" {
+                for c in 0..spans.len() {
+                    if a != c {
+                        shift(kind, spans[a], spans[c], &mut out);
+                    }
+                }
+            } else if a + 1 < spans.len() {
+                shift(kind, spans[a], spans[a + 1], &mut out);
+            }
+        }
+    }
+    out
+}
+
 pub fn run_c09(tier: &str) -> i32 {
     let full = tier != "quick";
     let mut report = Report::new("C09", tier, "fault_enumeration");
@@ -965,6 +1038,10 @@ pub fn run_c09(tier: &str) -> i32 {
         for k in 0..if full { 120 } else { 24 } {
             seeds.push((p + 1, four.clone(), false, k * if full { 1 } else { 5 }));
         }
+    }
+    // levels whose price and aggregates have several digits none of which is 0 (digit migration between them yields valid numbers)
+    for (j, p) in [1253u64, 987654, 31].into_iter().enumerate() {
+        seeds.push((p, vec![mk_ts(Tmpl::S10, 1, p, 1617), mk_ts(Tmpl::IC34, 2, p, 2718), mk_ts(Tmpl::S5, 3, p, 1617 + j as u64)], false, 0));
     }
     // large levels: the serialized package is longer than typical buffer sizes (4 KiB, 8 KiB); the level price
     // takes every decimal length so that block boundaries fall on every alignment of the repeating order records
@@ -1128,6 +1205,11 @@ pub fn run_c09(tier: &str) -> i32 {
                         let must_fail = name.starts_with("version");
                         judge(&mut a, name, &p.to_string(), must_fail);
                     }
+                    // field-boundary shifts: characters migrate between two literals (a pair of cooperating text faults)
+                    for (name, t) in boundary_shifts(&text, !big) {
+                        a.changed += 1;
+                        judge(&mut a, &name, &t, false);
+                    }
                     // pairs: structural x structural (content edit followed by a second edit, incl. checksum edits)
                     if (full || k % 9 == 0) && !big {
                         for (n1, p1) in structural.iter() {
@@ -1239,7 +1321,7 @@ pub fn run_c09(tier: &str) -> i32 {
     report.cov("rejected", json!(rejected));
     report.cov("accepted_with_identical_content", json!(accepted));
     report.cov("seed_levels", json!(seeds.len()));
-    report.cov("rule", json!(format!("{} seed levels (every single-order level over 14 templates, {} two-order levels, boundary-value books with both id formats); faults on the package JSON: every truncation point, every deletion, every substitution and insertion with each of 95 printable ASCII characters and two multi-byte characters at every offset; structural edits (drop / duplicate / swap orders, delete any field, rewrite every number and enum string, version, checksum variants); pairs of structural edits{}; in-memory edits of the package value. Oracle: restore returns Err, or the restored level has exactly the snapshotted content (price, aggregates, orders, re-snapshot text, maker sequence of a draining match); prefixes and wrong versions must be Err. distinct_nontrivial = faults that were rejected", seeds.len(), if full { "all" } else { "a seventh of the" }, if full { "; pairs of character edits for the smallest seeds" } else { " (sub-sampled seeds in the quick tier)" })));
+    report.cov("rule", json!(format!("{} seed levels (every single-order level over 14 templates, {} two-order levels, boundary-value books with both id formats); faults on the package JSON: every truncation point, every deletion, every substitution and insertion with each of 95 printable ASCII characters and two multi-byte characters at every offset; structural edits (drop / duplicate / swap orders, delete any field, rewrite every number and enum string, version, checksum variants); pairs of structural edits{}; field-boundary shifts (1-4 characters migrating between two numeric literals - every ordered pair of them on the small seeds, consecutive ones on the large seeds - or between consecutive string values); in-memory edits of the package value. Oracle: restore returns Err, or the restored level has exactly the snapshotted content (price, aggregates, orders, re-snapshot text, maker sequence of a draining match); prefixes and wrong versions must be Err. distinct_nontrivial = faults that were rejected", seeds.len(), if full { "all" } else { "a seventh of the" }, if full { "; pairs of character edits for the smallest seeds" } else { " (sub-sampled seeds in the quick tier)" })));
     report.cov("samples", json!(samples));
     report.cov("exhaustive", json!(!capped.load(Ordering::Relaxed)));
     if capped.load(Ordering::Relaxed) {
